@@ -34,6 +34,10 @@ func init() {
 			{ID: "R03q", Floor: 1, Doc: "the index rebuilt on resume has a record for every section the rescan passes (= R12c)", Run: ruleR12c},
 			{ID: "R03r", Floor: 1, Doc: "the teeing loader of the selective writer writes a block once, so the one-offset-per-CID record map describes every section written (= R15a)", Run: ruleR15a},
 			{ID: "R03s", Floor: 2, Doc: "a section that was written is indexed before the put reports success (= R06i)", Run: ruleR12g},
+			{ID: "R03t", Floor: 1, Doc: "the insertion index orders and equates records by digest alone: recordDigest.Less is `bytes.Compare(digest, other.digest) < 0` on every return (the tree derives equality from Less, and lookups probe with a digest-only record)", Run: ruleR03t},
+			{ID: "R03u", Floor: 1, Doc: "the sequential readers never seek backwards: no Seek(negative constant, io.SeekCurrent) in LoadIndex, Inspect, NewBlockReader, Next, SkipNext — the forward-only adapter for plain streams drops such a seek silently", Run: ruleR03u},
+			{ID: "R03v", Floor: 1, Doc: "the payload view index generation scans is the whole payload window (= R10d)", Run: ruleR10d},
+			{ID: "R03w", Floor: 1, Doc: "no reader type beside the audited ones stands between index generation and the bytes (= R16n)", Run: ruleR16n},
 			{ID: "R03g", Floor: 1, Doc: "InsertionIndex.GetAll offers every record with the key's digest", Run: ruleR03g},
 			{ID: "R03h", Floor: 1, Doc: "records loaded into the index once, after the scan", Run: ruleR03h},
 			{ID: "R03d", Floor: 2, Doc: "discardingReadSeekerPlusByte: every byte source (ReadByte, Seek's discard) reads through the counting Read, which adds exactly the returned count", Run: ruleR03d},
@@ -353,7 +357,7 @@ func checkRecordedOffsets(c *Ctx, r *Report, fn *ssa.Function, rebase bool) {
 
 func isNamed(t types.Type, pkg, name string) bool {
 	n := namedOf(t)
-	return n != nil && n.Obj().Pkg() != nil && n.Obj().Pkg().Path() == pkg && n.Obj().Name() == name
+	return n != nil && n.Obj().Pkg() != nil && n.Obj().Pkg().Path() == pkg && (n.Obj().Name() == name || n.Obj().Name() == curTypeName(pkg, name))
 }
 
 func headerReadHere(fn *ssa.Function, base ssa.Value) bool {
